@@ -1,4 +1,5 @@
 import Np.Proofs.Deriv
+import Np.Proofs.Expr3
 import Np.Model.Grad
 import Np.Proofs.DerivFull
 import Np.Proofs.GradArr
@@ -94,5 +95,13 @@ theorem hessian_symmetric (rc rn : Bool) (p : Poly (Vec R n)) (hw : WF p) (hb : 
     denAt (hessianOf rc rn p) k1 = denAt (hessianOf rc rn p) k2 :=
   hessian_symm rc rn p hw hb a ha j hj i k1 k2 h1 h2
 end arrays
+
+/-- `derivative` is the formal partial derivative for exponents of ANY size: the earlier statements carry the bound
+"every exponent < 2^32" (`Bdd`), which products do not preserve; the rows whose uint32 decrement wraps are exactly the
+rows the cleaning drops, so the bound is not needed -/
+theorem derivative_den_unbounded {S : Type} [CommRing S] [BEq S] [LawfulBEq S] (rn : Bool) (j : Nat) (p : Poly S)
+    (hw : WF p) (hj : j < p.names.length) :
+    WF (derivative rn j p) ∧ den (derivative rn j p) = MvPolynomial.pderiv (p.names[j]) (den p) :=
+  ⟨derivative_WF' rn j p hw hj, derivative_den' rn j p hw hj⟩
 
 end Np.Props.C06
